@@ -590,6 +590,8 @@ fn exercise_pattern(ctx: &mut Ctx, pat: &Pattern, names: &[String]) {
     if text.contains('{') {
         ctx.probe("alternate-pattern-matched");
     }
+    // the work a brace pattern may honestly cost grows with its expansion count
+    let weight = inherent.unwrap_or(1).max(1) as usize * (text.len() + 64);
     // witnesses: names derived from the pattern text itself (metacharacters
     // replaced), with and without their dashes, so that both candidates of a
     // best_match really match and dash-less names are ranked too
@@ -610,11 +612,11 @@ fn exercise_pattern(ctx: &mut Ctx, pat: &Pattern, names: &[String]) {
     }
     let names = &extended;
     for n in names {
-        let m = pat.matches(n);
+        let m = metered!(ctx, n.len() + weight, pat.matches(n));
         ep!(ctx, "Pattern::matches", m);
     }
     for w in names.windows(2) {
-        let b = pat.best_match(&w[0], &w[1]);
+        let b = metered!(ctx, w[0].len() + w[1].len() + 2 * weight, pat.best_match(&w[0], &w[1]));
         ep!(ctx, "Pattern::best_match", b.is_some());
     }
 }
@@ -624,14 +626,14 @@ fn pipeline_a(doc: &[u8], script: &[ReadStep], buffered: Option<usize>, ctx: &mu
         None => {
             let r = SimBufReader::new(doc.to_vec(), script.to_vec());
             let log = r.log();
-            let res = ScanIndex::from_reader(r);
+            let res = metered!(ctx, doc.len(), ScanIndex::from_reader(r));
             log.borrow().absorb(ctx, "fill_buf");
             res
         }
         Some(c) => {
             let r = SimReader::new(doc.to_vec(), script.to_vec());
             let log = r.log();
-            let res = ScanIndex::from_reader(BufReader::with_capacity(c.max(1), r));
+            let res = metered!(ctx, doc.len() + c, ScanIndex::from_reader(BufReader::with_capacity(c.max(1), r)));
             log.borrow().absorb(ctx, "fill_buf");
             res
         }
@@ -681,7 +683,7 @@ fn pipeline_a(doc: &[u8], script: &[ReadStep], buffered: Option<usize>, ctx: &mu
                     }
                 }
                 if let Some((p, _)) = tok.split_once(':') {
-                    let r = Pattern::new(p);
+                    let r = metered!(ctx, p.len() + 64, Pattern::new(p));
                     fe(&r);
                     ep!(ctx, "Pattern::new", r.is_ok());
                     if p.contains(['<', '>']) && !p.contains(['{', '}']) {
@@ -690,7 +692,7 @@ fn pipeline_a(doc: &[u8], script: &[ReadStep], buffered: Option<usize>, ctx: &mu
                         ep!(ctx, "Dewey::new", d.is_ok());
                         if let Ok(d) = d {
                             for n in names.iter().take(4) {
-                                let m = d.matches(n);
+                                let m = metered!(ctx, n.len() + 64, d.matches(n));
                                 ep!(ctx, "Dewey::matches", m);
                             }
                         }
@@ -755,6 +757,25 @@ fn pipeline_b(
             }
         }
         dirnames.push(dn);
+    }
+    if hash_seed % 16 == 0 {
+        // the database path holds a plain file (a pkgdb.byfile.db-style database, or a
+        // directory lost and replaced): opening and iterating it must return normally
+        ctx.fault("db_replaced_by_file");
+        let _ = std::fs::remove_dir_all(&dbpath);
+        sd.write("db", b"\x00\x06\x15\x61 not a directory");
+        let db = PkgDB::open(&dbpath);
+        ep!(ctx, "PkgDB::open (plain file)", db.is_ok());
+        if let Ok(mut db) = db {
+            for _ in 0..3 {
+                let item = db.next();
+                ep!(ctx, "PkgDB::next (plain file)", item.is_none());
+                if let Some(Ok(p)) = item {
+                    let _ = (p.pkgname(), p.pkgbase(), p.pkgversion());
+                }
+            }
+        }
+        return Ok(());
     }
     let db = PkgDB::open(&dbpath);
     ep!(ctx, "PkgDB::open", db.is_ok());
@@ -877,7 +898,7 @@ fn pipeline_b(
             }
         }
         if let Some(raw) = &raw {
-            let pl = Plist::from_bytes(raw);
+            let pl = metered!(ctx, raw.len(), Plist::from_bytes(raw));
             fe(&pl);
             ep!(ctx, "Plist::from_bytes", pl.is_ok());
             if let Ok(pl) = &pl {
@@ -906,10 +927,10 @@ fn pipeline_b(
                 ep!(ctx, "PlistEntry::from_bytes", e.is_ok());
             }
         }
-        let text = sum.to_string();
+        let text = metered!(ctx, 4096, sum.to_string());
         ep!(ctx, "Summary::Display", true);
         let _ = (sum.is_completed(), sum.pkgbase(), sum.pkgversion(), sum.description_as_str());
-        let parsed = Summary::from_str(&text);
+        let parsed = metered!(ctx, text.len(), Summary::from_str(&text));
         fe(&parsed);
         ep!(ctx, "Summary::from_str", parsed.is_ok());
         // the entry travels on as a pkg_summary stream, chunked
@@ -928,7 +949,7 @@ fn pipeline_b(
         let mut pos = 0usize;
         let mut errors_seen = 0;
         for c in lens {
-            let r = ss.write(&stream_bytes[pos..pos + c]);
+            let r = metered!(ctx, pos + c, ss.write(&stream_bytes[pos..pos + c]));
             ctx.step("write", c as u64, r.is_ok() as u64);
             fe(&r);
             ep!(ctx, "SummaryStream::write", r.is_ok());
@@ -977,9 +998,9 @@ fn pipeline_c(
         let line = format!("{} (file.tgz) = 00\n", n);
         let _ = Distinfo::from_bytes(line.as_bytes()).distfiles().len();
     }
-    let di = Distinfo::from_bytes(distinfo);
+    let di = metered!(ctx, distinfo.len(), Distinfo::from_bytes(distinfo));
     ep!(ctx, "Distinfo::from_bytes", true);
-    let out = di.as_bytes();
+    let out = metered!(ctx, distinfo.len(), di.as_bytes());
     ep!(ctx, "Distinfo::as_bytes", true);
     let di2 = Distinfo::from_bytes(&out);
     let _ = di2.as_bytes();
@@ -1093,8 +1114,8 @@ fn pipeline_d(seed: u64, ops: &[DOp], ctx: &mut Ctx) -> Outcome {
             }
             DOp::ParsePrinted { seed } => {
                 set_hash_seed(*seed);
-                let t = sum.to_string();
-                let r = Summary::from_str(&t);
+                let t = metered!(ctx, 4096, sum.to_string());
+                let r = metered!(ctx, t.len(), Summary::from_str(&t));
                 ep!(ctx, "Summary::from_str", r.is_ok());
                 if let Ok(p) = r {
                     sum = p;
@@ -1224,7 +1245,7 @@ fn pipeline_e(doc: &[u8], script: &[ReadStep], hash_seed: u64, ctx: &mut Ctx) ->
         }
         for list in [e.depends(), e.conflicts(), e.supersedes()].into_iter().flatten() {
             for d in list.iter().take(6) {
-                let p = Pattern::new(clip(d, 160));
+                let p = metered!(ctx, 160 + 64, Pattern::new(clip(d, 160)));
                 ep!(ctx, "Pattern::new", p.is_ok());
                 if let Ok(p) = p {
                     exercise_pattern(ctx, &p, &names);
@@ -1764,6 +1785,9 @@ impl Property for C17 {
         .to_string()
     }
 
+    fn work_factor(&self) -> Option<u64> {
+        Some(2048)
+    }
     fn rule(&self) -> String {
         "Each run picks one of four pipelines (A bulk scan -> dependency resolution, B package database -> \
          pkg_summary, C distinfo -> verification, D Summary call histories, E pkg_summary stream -> dependency \
